@@ -31,7 +31,7 @@ def case_strategy(draw):
         names = [fmt.format(index=first + i)[:-3] for i in range(k)]
     same_species = draw(st.integers(0, 2)) > 0
     sp0 = draw(st.sampled_from(SPECIES_CHOICES))
-    ids = draw(st.lists(st.integers(0, 2**40), unique=True, min_size=sum(sizes), max_size=sum(sizes)))
+    ids = draw(st.lists(sc.FLIGHT_ID, unique=True, min_size=sum(sizes), max_size=sum(sizes)))
     inputs = []
     pos = 0
     for i in range(k):
